@@ -54,6 +54,8 @@ func (r *Recorder) BuildReport(now time.Time, maxSize int) *rtcp.CCFeedbackRepor
 	}
 	maxReportBlocks := max((maxSize-12-(8*streamCount))/2, 0)
 	maxReportBlocksPerStream := maxReportBlocks / streamCount
+	// Metric blocks are padded to a multiple of 4 bytes: an odd count would use 2 bytes more than budgeted.
+	maxReportBlocksPerStream -= maxReportBlocksPerStream % 2
 
 	for _, log := range r.streams {
 		block := log.metricsAfter(now, int64(maxReportBlocksPerStream))
